@@ -15,7 +15,7 @@ from psd.py: `Spectrum.scale`, `df`, the sampling / NFFT / psd setters, `Range` 
 
 Any statement outside the recognised shapes raises `Fail` (the caller reports the tie as broken).
 `extract(src)` returns plain dicts; `gallina(tab)` renders them as the table read by coq/Model/PipelineLib.v.
-Reusable: C02/C03/C04/C05/C15 import `extract`, `gallina`, `CLASSES`, `make_object_kwargs`.
+Reusable: C02/C03/C04/C05/C15 import `extract`, `gallina`, `describe`, `CLASSES`, `COQ_CLS` (object factory: _c08_objects.py).
 """
 import ast
 import os
